@@ -21,6 +21,7 @@ L['C02'] = dict(modules=['Schc.Properties.C02'], level='proof', technique='Lean 
     level_text='Proved for all packets and rules: the model of compress (Python control flow, zip truncation, byte-level least_significant_bits, dict lookup, _encode_length) equals the declarative RFC 8724 §7 layout. Hypothesis AllOK = the rule can encode the packet (mapped value present, sizes < 2^16, LSB fields left-padded as parsers deliver them, pattern not longer than the field).')
 L['C03'] = dict(modules=['Schc.Properties.C03'], level='proof', technique='Lean 4 induction over the descriptor list against a conforming-peer encoder',
     theorems=[T('C03_decompress', 'full', 'on rule ID ++ residues of ANY admissible values ++ payload, decompress consumes exactly the residues and rebuilds the values in rule order, payload last, then runs the compute functions'),
+              T('C03_decompress_any_sort', 'full', 'the same with the compute functions run in the order of ANY sorted permutation of the entries, where the comparator orders them consistently (Rule.orderOk): list.sort is only assumed to sort'),
               T('C03_decompress_nocompute', 'full', 'without compute fields the result is values ++ payload, bit for bit'),
               T('C03_mapping_prefix', 'full', 'mapping index resolved by prefix for any prefix-free index set, any widths, any dict order')],
     level_text='Proved for every rule, every list of admissible values (all sizes across the 4/12/28-bit encodings, mappings with prefix-free indices of mixed width), every payload including empty and unaligned, either padding side of the SCHC packet. What compute functions return is C09.')
@@ -135,6 +136,9 @@ L['C09'] = dict(modules=['Schc.Properties.C09', 'Schc.Properties.C01'], level='p
               T('C09_compute_order_unique', 'full', 'where compute_function_sort orders the rule\'s compute entries consistently (Rule.orderOk, tested by the model driver on every line), ANY permutation of the entries that is sorted for the comparator equals the model\'s insertion sort: list.sort is only assumed to sort'),
               T('C09_compute_order_sorted', 'full', 'the model\'s sort returns a permutation of the entries, sorted for the comparator'),
               T('C09_order_test_covers_directions', 'full', 'the driver\'s test (Rule.orderOkAll) implies orderOk of the rule every direction= call works on'),
+              T('C09_order_test_passes', 'full', 'a rule whose compute fields are written in dependency order (none before one it depends on) passes the driver\'s test, for every direction: the test never fires inside the properties\' quantifiers'),
+              T('C09_protocol_order_forward', 'full', 'the computable fields in protocol layout order are in dependency order for the dependency sets regenerated from the source (decide +kernel)'),
+              T('C09_order_test_passes_protocol', 'full', 'every rule whose compute fields follow the protocol layout (any subset) passes the test'),
               T('restore6', 'full', 'IPv6/UDP field list: whichever of payload length, UDP length, UDP checksum were elided (zero placeholders), running their compute functions at their stack positions, in the sorted order, regenerates the valid packet bits'),
               T('step_uc', 'full', 'udp._compute_checksum at position 11 of an IPv6/UDP list builds the pseudo-header from fields 6 and 7 and the computed UDP length'),
               T('restoreS', 'full', 'SCTP field list: the checksum compute function at position 3 regenerates the CRC-32c of a valid packet'),
